@@ -823,12 +823,17 @@ void fp_inv_sim(fp_t *c, const fp_t *a, int n) {
 
 	fp_null(u);
 
+	if (t != NULL) {
+		for (i = 0; i < n; i++) {
+			fp_null(t[i]);
+		}
+	}
+
 	RLC_TRY {
 		if (t == NULL) {
 			RLC_THROW(ERR_NO_MEMORY);
 		}
 		for (i = 0; i < n; i++) {
-			fp_null(t[i]);
 			fp_new(t[i]);
 		}
 		fp_new(u);
@@ -853,8 +858,10 @@ void fp_inv_sim(fp_t *c, const fp_t *a, int n) {
 		RLC_THROW(ERR_CAUGHT);
 	}
 	RLC_FINALLY {
-		for (i = 0; i < n; i++) {
-			fp_free(t[i]);
+		if (t != NULL) {
+			for (i = 0; i < n; i++) {
+				fp_free(t[i]);
+			}
 		}
 		fp_free(u);
 		RLC_FREE(t);
